@@ -93,6 +93,9 @@ def position_of(res, n, r):
     return None
 
 
+OUTPUTS = ["ObsEdges.v", "SMKnown.v"]
+
+
 def observe_edges():
     impl = [os.path.join(V.BUILD, "implrun"), "sm"]
     cells, reqs = [], []
